@@ -17,7 +17,14 @@ pub fn set_inflight_lazy(data: *const (), fmt: fn(*const ()) -> String) {
     IN_SUBJECT.with(|c| c.set(true));
 }
 
+/// Registers the description of the case in flight on this thread (eager form).
+pub fn set_inflight(desc: String) {
+    INFLIGHT.with(|c| *c.borrow_mut() = Some(desc));
+    IN_SUBJECT.with(|c| c.set(true));
+}
+
 pub fn clear_inflight() {
+    INFLIGHT.with(|c| *c.borrow_mut() = None);
     INFLIGHT_FN.with(|c| c.set(None));
     IN_SUBJECT.with(|c| c.set(false));
 }
@@ -27,6 +34,15 @@ fn describe() -> Option<String> {
         return Some(f(d));
     }
     INFLIGHT.with(|c| c.borrow().clone())
+}
+
+/// Runs `f` with `case` registered as the case in flight; `fmt` receives the pointer to `case` and must return
+/// the text `replaycase=<<...>>` (the replay `--case` argument) — only evaluated if the process crashes.
+pub fn with_inflight<T, R>(case: &T, fmt: fn(*const ()) -> String, f: impl FnOnce() -> R) -> R {
+    set_inflight_lazy(case as *const T as *const (), fmt);
+    let r = f();
+    clear_inflight();
+    r
 }
 
 pub fn take_last_panic() -> Option<String> {
